@@ -195,7 +195,7 @@ class Workspace:
                 lines.append(f'for f in {t}?.in; do if [ -f "$f" ]; then echo "$f"; cat "$f"; fi; done')
             else:
                 for n in ins:
-                    lines.append(f'echo "{n}.in"; cat "{n}.in"')
+                    lines.append(f'echo "{n}.in"; if [ -f "{n}.in" ]; then cat "{n}.in"; else echo "<declared, absent>"; fi')
             for d in sorted(self.h["decldeps"][t]):
                 rd = self.resolve(st, d)
                 dout = self.outpath(rd, st["src"][rd]["outv"])
@@ -211,7 +211,7 @@ class Workspace:
                 if c == "const" or len(ins) < 2:
                     body.append(f'sha256sum < {tmpf} > "{out}/{i}"')
                 else:
-                    body.append(f'{{ echo "{t} {c} {s["outv"]}"; cat "{ins[i - 1]}.in"; }} | sha256sum > "{out}/{i}"')
+                    body.append(f'{{ echo "{t} {c} {s["outv"]}"; if [ -f "{ins[i - 1]}.in" ]; then cat "{ins[i - 1]}.in"; else echo "<declared, absent>"; fi; }} | sha256sum > "{out}/{i}"')
         elif kind == "bin":
             body += [f'sha256sum < {tmpf} > "{out}"', f'chmod +x "{out}"']
         elif kind == "file":
